@@ -18,7 +18,7 @@ type GenOpts struct {
 	Formatters         []string
 	ForceFileWriteRoot bool
 	FlatTemplateData   bool
-	DupNames           bool // reuse the same interface names in every package
+	DupNames           bool     // reuse the same interface names in every package
 	Layout             []string // when set, use exactly these package directories
 }
 
@@ -37,6 +37,10 @@ var pkgLayouts = [][]string{
 	// "p-x" sorts between "p" and "p/q": an unrelated package between an ancestor and its descendant
 	{"p", "p-x", "p/q", "p/q/r"},
 	{"a", "a.b", "a/b", "a/b/c", "z"},
+	// several packages share one package name: which keeps the bare qualifier and which gets the
+	// numbered alias must not depend on any internal order
+	{"a/codec", "b/codec", "c"},
+	{"k/util", "l/util", "m/util", "n"},
 }
 
 func baseName(dir string) string {
@@ -113,6 +117,20 @@ func GenPackages(r *core.Rng, o GenOpts) []Pkg {
 				prev := pkgs[r.Intn(len(pkgs))]
 				ifc.XRefPath = "example.com/w/" + prev.Dir
 				ifc.XRefQual = "x" + prev.Name
+			}
+			if o.AllowXRef && pi > 1 {
+				// two earlier packages with one name, both mentioned by a single parameter type
+				for x := 0; x < len(pkgs) && ifc.Twin[0] == ""; x++ {
+					for y := x + 1; y < len(pkgs); y++ {
+						if pkgs[x].Name == pkgs[y].Name && r.Chance(2, 3) {
+							ifc.Twin = [2]string{"example.com/w/" + pkgs[x].Dir, "example.com/w/" + pkgs[y].Dir}
+							if r.Bool() {
+								ifc.Twin[0], ifc.Twin[1] = ifc.Twin[1], ifc.Twin[0]
+							}
+							break
+						}
+					}
+				}
 			}
 			files[k%nFiles].Ifaces = append(files[k%nFiles].Ifaces, ifc)
 		}
